@@ -170,6 +170,9 @@ func runWorker(t *testing.T) {
 				st.ShrinkRuns++
 			} else {
 				st.Runs++
+				if s.NonTrivialProbe != "" {
+					out.Stats.NonTrivial = out.Stats.Probes[s.NonTrivialProbe] > 0
+				}
 				st.accumulate(&out, c, digests)
 			}
 			if out.Harness != "" {
@@ -575,6 +578,12 @@ var expectedProbes = map[string][]string{
 	"C01": {"begin_while_commit_in_flight", "memtable_rotated", "memtable_flushed"},
 	"C03": {"begin_while_commit_in_flight", "memtable_rotated", "choose:doWrites.select"},
 	"C04": {},
+	"C05": {"compaction_done", "memtable_flushed"},
+	"C08": {"memtable_rotated", "crash_in_close", "recovered_unacked_commit"},
+	"C12": {"compact_L0_to_Lbase", "compact_L0_to_L0", "compact_Ln_to_Ln1", "compact_Lmax_to_Lmax", "compact_split_subcompactions", "l0_stall_poll"},
+	"C13": {"compaction_done"},
+	"C33": {"expiry_crossed", "compaction_done"},
+	"C34": {"begin_while_commit_in_flight", "watermark_advanced"},
 }
 
 // ---------- determinism self-test ----------
